@@ -374,6 +374,11 @@ func budget(n int) time.Duration {
 		d = 60 * time.Second
 	}
 
+	// small inputs parse in well under a millisecond: 20 s is already four orders of magnitude of slack
+	if n < 1<<16 {
+		d = 20 * time.Second
+	}
+
 	return d
 }
 
@@ -413,6 +418,18 @@ func runGuarded(b []byte, d time.Duration) guardResult {
 	case <-timer.C:
 		return guardResult{timedOut: true, elapsed: time.Since(start)}
 	}
+}
+
+// abortRun ends the test binary at once with the given verdict. Used when non-termination has been confirmed: the
+// goroutines that still spin in the parser cannot be stopped, and every shrinking attempt of rapid would cost the
+// full time budget again, so the failure would only be reported after the driver's deadline. The saved input is the
+// reproduction. (A panic in a goroutine of its own is not recovered by rapid.)
+func abortRun(msg string) {
+	fmt.Fprintln(os.Stderr, msg)
+
+	go func() { panic(msg) }()
+
+	select {}
 }
 
 type failer interface {
@@ -466,8 +483,8 @@ func check(t failer, b []byte, label string) *outcome {
 		r2 := runGuarded(b, 2*budget(len(b)))
 
 		if r2.timedOut {
-			t.Fatalf("VERIF-VIOLATION non-termination: input (%s, %d bytes) exceeded %v and then %v; saved as %s\ninput: %s",
-				label, len(b), budget(len(b)), 2*budget(len(b)), p, escaped(b))
+			abortRun(fmt.Sprintf("VERIF-VIOLATION non-termination: input (%s, %d bytes) exceeded %v and then %v; saved as %s\ninput: %s",
+				label, len(b), budget(len(b)), 2*budget(len(b)), p, escaped(b)))
 		}
 
 		t.Fatalf("VERIF-INCONCLUSIVE: input (%s, %d bytes) exceeded the time budget %v once, finished in %v on re-check; saved as %s",
